@@ -180,7 +180,7 @@ const maxDepth = 64
 // Scale families: the COUNT of a repeated construct taken to the tens of thousands (an
 // IDL file of a few hundred kilobytes): a parser step that rescans what it has seen -
 // quadratic numbering of actions, repeated scope walks - stays far below the time budget
-// at 64 repetitions and far above it here (seed C07-18: automatic action ids found by
+// at 64 repetitions and far above it here (seed C07-17: automatic action ids found by
 // rescanning from 100 on every action; 23 000 actions: 0.3 s before, 18 s after).
 var scaleSizes = []int{1000, 8000, 30000}
 
